@@ -26,15 +26,25 @@ class _SumLoop(LoopContract):
     fn = None
 
     def snapshot(self, I, fr, seq):
-        return {}
+        # the accumulator by role: the one local the loop body updates with `x += ...` / `x = x + ...`
+        import ast
+        from pyvc.values import EngineLimit
+        names = {n.target.id for n in ast.walk(self.st) if isinstance(n, ast.AugAssign) and isinstance(n.target, ast.Name)}
+        names |= {t.id for n in ast.walk(self.st) if isinstance(n, ast.Assign) and isinstance(n.value, ast.BinOp)
+                  for t in n.targets if isinstance(t, ast.Name) and any(isinstance(x, ast.Name) and x.id == t.id
+                                                                         for x in ast.walk(n.value))}
+        if len(names) != 1:
+            raise EngineLimit("sum loop without a single accumulator")
+        return {"acc": names.pop()}
 
     def havoc(self, I, fr, entry, seq):
-        fr.locals["total"] = SymV(I.ctx.fresh("total", R_), "real")
-        for v in ("host_value", "host"):
+        from pyvc.contract import loop_assigned
+        for v in loop_assigned(self.st):
             fr.locals.pop(v, None)
+        fr.locals[entry["acc"]] = SymV(I.ctx.fresh("total", R_), "real")
 
     def inv(self, I, fr, entry, seq, k):
-        return [("partial-sum", rval(fr.locals["total"]) == self.fn(k))]
+        return [("partial-sum", rval(fr.locals[entry["acc"]]) == self.fn(k))]
 
 
 @loop_contract
